@@ -185,7 +185,7 @@ func (s *Server) serve(ctx context.Context, listener net.Listener, handler Modbu
 				verifPoint("conn.closed", conn.conn, 0)
 				s.trackConn(c, false)
 				verifPoint("conn.untracked", conn.conn, 0)
-				if s.OnAcceptConnFunc != nil {
+				if s.OnCloseConnFunc != nil {
 					s.OnCloseConnFunc(ctx, conn.conn.RemoteAddr(), s.isShutdown.Load())
 				}
 			}()
